@@ -793,3 +793,297 @@ Proof.
       * intros c0. cbn. rewrite C7. apply W3.
     + sl_irr st1.
 Qed.
+
+Lemma ghost_c12_plain : forall e, plain e -> is_ghost e = true -> c12_plain e.
+Proof. intros e P G. destruct e; cbn in *; try contradiction; try discriminate; auto. destruct h; auto; discriminate. Qed.
+
+(** the state is the same in everything the relation looks at *)
+Lemma d_steq : forall p st st' m,
+  DRel p st m -> sl st' = sl st -> wused st' = wused st -> nfill st' = nfill st -> dl st' = dl st ->
+  (forall u, tcont (thr st' u) = tcont (thr st u) /\ tfinal (thr st' u) = tfinal (thr st u) /\
+             tcur (thr st' u) = tcur (thr st u) /\ tret (thr st' u) = tret (thr st u)) ->
+  DRel p st' m.
+Proof.
+  intros p st st' m R Esl Ewu Enf Edl Hu.
+  assert (Co : forall u, tcont (thr st' u) = tcont (thr st u)) by (intro u; apply Hu).
+  assert (Tp : forall u, tpushes (thr st' u) = tpushes (thr st u)).
+  { intro u. unfold tpushes. destruct (Hu u) as [A [B _]]. rewrite A, B. reflexivity. }
+  assert (Pl : pipeline st' = pipeline st) by (unfold pipeline; rewrite Edl, Co; reflexivity).
+  assert (Pg : forall w, prog st' m w <-> prog st m w) by (intro w; unfold prog; rewrite Pl, Esl, Co; tauto).
+  constructor.
+  - apply (d_bad _ _ _ R).
+  - rewrite Esl. apply (d_uniq _ _ _ R).
+  - rewrite Esl, Ewu, Enf. apply (d_used _ _ _ R).
+  - rewrite Enf. apply (d_nfill _ _ _ R).
+  - intros u i0 r0 j. rewrite Co. apply (d_ypos _ _ _ R).
+  - intros u j. rewrite Co. apply (d_ymain _ _ _ R).
+  - intros w d. rewrite Co, Esl, Ewu. apply (d_y _ _ _ R).
+  - rewrite Esl, Ewu. apply (d_dead _ _ _ R).
+  - intros u x w. rewrite Tp, Ewu. apply (d_push _ _ _ R).
+  - rewrite Pl, Esl, Ewu. apply (d_pipe _ _ _ R).
+  - intros w H. apply Pg. apply (d_done _ _ _ R w H).
+  - intros u w. destruct (Hu u) as [A [B [C D]]]. rewrite C, D, A. intro H.
+    destruct (d_cmd _ _ _ R u w H) as [X|[D1 [D2 [D3 [D4 D5]]]]]; [left; exact X|right].
+    split; [exact D1|]. split; [exact D2|]. split; [exact D3|]. split; [exact D4|]. destruct D5 as [D5|D5]; [left; exact D5|right; apply Pg; exact D5].
+  - intros u w H. destruct (Hu u) as [A [B [C D]]]. rewrite C, A. apply (d_pbad _ _ _ R u w H).
+Qed.
+
+Lemma d_frame_s : forall st st' m t,
+  DRel DNone st m ->
+  sl st' = sl st -> wused st' = wused st -> nfill st' = nfill st -> dl st' = dl st ->
+  tcont (thr st t) = [] ->
+  (forall u, u <> t -> thr st' u = thr st u) ->
+  (forall w, tcur (thr st' t) <> Some (CDropW w)) ->
+  tfinal (thr st' t) = tfinal (thr st t) ->
+  (forall j, In j (tcont (thr st' t)) -> ~ is_yield j /\ push_of j = [] /\ dels_of j = []) ->
+  DRel DNone st' m.
+Proof.
+  intros st st' m t R Esl Ewu Enf Edl Hc Ho Hcur Hfin Hj.
+  assert (Z1 : forall k, (forall j, In j k -> ~ is_yield j /\ push_of j = [] /\ dels_of j = []) -> pushes k = [] /\ cont_dels k = []).
+  { induction k as [|j k IH]; intro H; [split; reflexivity|]. destruct (H j (or_introl eq_refl)) as [_ [A B]].
+    destruct IH as [C D]; [intros; apply H; right; assumption|]. rewrite pushes_cons, cont_dels_cons, A, B, C, D. split; reflexivity. }
+  destruct (Z1 _ Hj) as [Zp Zd].
+  apply (d_frame st st' m t R); auto.
+  - intros u Hu. rewrite (Ho u Hu). split; [reflexivity|]. intros w Hw. split; [exact Hw|reflexivity].
+  - intros j Hin. apply (Hj j Hin).
+  - intros u x w. destruct (Nat.eq_dec u t) as [->|Hu]; [|rewrite (Ho u Hu); auto].
+    unfold tpushes. rewrite Zp, Hfin, Hc. cbn. auto.
+Qed.
+
+Lemma d_spawn : forall s m t p f,
+  DRel DNone s m -> pristine s -> (forall x w, ~ In (x, HPlain w) (pushes f)) -> DRel DNone (spawn_thread s t p f) m.
+Proof.
+  intros s m t p f R [P0 P] Hf.
+  apply (d_frame s _ m (nthr s) R); try reflexivity.
+  - apply P. lia.
+  - intros u Hu. unfold spawn_thread. cbn -[Nat.eqb]. unfold updN, th. destruct (Nat.eqb_spec u (nthr s)); [congruence|]. auto.
+  - intros w. unfold spawn_thread. cbn -[Nat.eqb]. unfold updN, th. rewrite Nat.eqb_refl. discriminate.
+  - unfold spawn_thread. cbn -[Nat.eqb]. unfold updN, th. rewrite Nat.eqb_refl. intros j [].
+  - unfold spawn_thread. cbn -[Nat.eqb]. unfold updN, th. rewrite Nat.eqb_refl. reflexivity.
+  - intros u x w. unfold spawn_thread. cbn -[Nat.eqb]. unfold updN, th. destruct (Nat.eqb_spec u (nthr s)) as [->|]; [|auto].
+    unfold tpushes. cbn. intro H. exfalso. exact (Hf x w H).
+Qed.
+
+Definition pinst (t : tid) (c : cmd) : dpend := match c with CDropW w => DBad t w | _ => DNone end.
+Definition pbegin (t : tid) (c : cmd) (done : option retv) : dpend :=
+  match c, done with CDropW w, Some _ => DBad t w | _, _ => DNone end.
+
+Lemma memZ_cons12 : forall w a l, memZ w l = true -> memZ w (a :: l) = true.
+Proof. intros w a l H. unfold memZ in *. cbn. rewrite H. apply orb_true_r. Qed.
+
+(** the command is installed as the current one; the monitor sees [ECmd c] *)
+Lemma d_install : forall s0 m t c cs,
+  DRel DNone s0 m -> tcont (thr s0 t) = [] ->
+  DRel (pinst t c) (upd_th s0 t (set_tret (set_tcur (set_tscript (th s0 t) cs) (Some c)) RUnit)) (m12_step m (t, ECmd c)).
+Proof.
+  intros s0 m t c cs R Hc.
+  set (s1 := upd_th s0 t (set_tret (set_tcur (set_tscript (th s0 t) cs) (Some c)) RUnit)).
+  assert (Ho : forall u, u <> t -> thr s1 u = thr s0 u) by (intros u Hu; unfold s1; thr_simpl).
+  assert (Hc1 : tcont (thr s1 t) = []) by (unfold s1; thr_simpl).
+  assert (Hf1 : tfinal (thr s1 t) = tfinal (thr s0 t)) by (unfold s1; thr_simpl).
+  assert (Hu1 : tcur (thr s1 t) = Some c) by (unfold s1; thr_simpl).
+  assert (Plain : (forall w, c <> CDropW w) -> DRel DNone s1 m).
+  { intro Hn. apply (d_frame_s s0 s1 m t R); try reflexivity; auto.
+    - intros w. rewrite Hu1. intro E. inversion E. eapply Hn; eauto.
+    - rewrite Hc1. intros j []. }
+  destruct c as [w|w|c0 x|c0|w|n| | | | | |c0|c0|p0|p0 x|p0| |x| | ];
+    try (cbn [pinst]; eapply d_msame; [apply Plain; intros; discriminate|constructor; reflexivity]).
+  cbn [pinst]. unfold m12_step.
+  set (m1 := mkM12 (mb_step (m12_b m) (t, ECmd (CDropW w))) (w :: m12_begun m) (m12_done m) (m12_dead m) (m12_bad m)).
+  assert (Tp : forall u, tpushes (thr s1 u) = tpushes (thr s0 u)).
+  { intro u. destruct (Nat.eq_dec u t) as [->|Hu]; [|rewrite Ho; auto]. unfold tpushes. rewrite Hc1, Hf1, Hc. reflexivity. }
+  assert (Co : forall u, tcont (thr s1 u) = tcont (thr s0 u)).
+  { intro u. destruct (Nat.eq_dec u t) as [->|Hu]; [congruence|rewrite Ho; auto]. }
+  assert (Pl : pipeline s1 = pipeline s0) by (unfold pipeline; rewrite Co; reflexivity).
+  assert (Pg : forall w0, prog s1 m1 w0 <-> prog s0 m w0) by (intro w0; unfold prog; rewrite Pl, Co; reflexivity).
+  constructor; cbn [dbegun m12_begun m12_done m12_dead m12_bad m1 tl].
+  - apply (d_bad _ _ _ R).
+  - apply (d_uniq _ _ _ R).
+  - apply (d_used _ _ _ R).
+  - apply (d_nfill _ _ _ R).
+  - intros u i0 r0 j. rewrite Co. apply (d_ypos _ _ _ R).
+  - intros u j. rewrite Co. apply (d_ymain _ _ _ R).
+  - intros w0 d. rewrite Co. apply (d_y _ _ _ R).
+  - apply (d_dead _ _ _ R).
+  - intros u x w0. rewrite Tp. apply (d_push _ _ _ R).
+  - rewrite Pl. apply (d_pipe _ _ _ R).
+  - intros w0 H. apply Pg. apply (d_done _ _ _ R w0 H).
+  - intros u w0 Hu. destruct (Nat.eq_dec u t) as [->|Hn].
+    + rewrite Hu1 in Hu. inversion Hu; subst w0. left. split; [reflexivity|]. exists (m12_begun m). reflexivity.
+    + rewrite Ho in * by auto. destruct (d_cmd _ _ _ R u w0 Hu) as [[D _]|[D1 [D2 [D3 [D4 D5]]]]]; [discriminate D|right].
+      split; [intro E; inversion E; congruence|]. split; [exact D2|]. split; [exact D3|]. split; [exact D4|].
+      destruct D5 as [D5|D5]; [left; exact D5|right; apply Pg; exact D5].
+  - intros u w0 E. inversion E; subst u w0. split; [exact Hu1|exact Hc1].
+Qed.
+
+(** [drop] of a registered, idle waker: the pending provisional entry of the monitor becomes definite *)
+Lemma d_dropw_begin : forall s1 m t w wi,
+  SlInv s1 -> DRel (DBad t w) s1 m -> wreg s1 w = Some wi -> tret (thr s1 t) = RUnit ->
+  DRel DNone (set_cont (set_wreg s1 (updZ (wreg s1) w None)) t [ILock MDL (LPush (wbit wi) (wbm wi) (HPlain w))]) m.
+Proof.
+  intros s1 m t w wi S R Ew Hret.
+  destruct (d_pbad _ _ _ R t w eq_refl) as [Hu Hc].
+  destruct (d_cmd _ _ _ R t w Hu) as [[_ [old Eb]]|[X _]]; [|congruence].
+  set (st2 := set_cont (set_wreg s1 (updZ (wreg s1) w None)) t [ILock MDL (LPush (wbit wi) (wbm wi) (HPlain w))]).
+  assert (Ho : forall u, u <> t -> thr st2 u = thr s1 u) by (intros u Hn; unfold st2; thr_simpl).
+  assert (Hc2 : tcont (thr st2 t) = [ILock MDL (LPush (wbit wi) (wbm wi) (HPlain w))]) by (unfold st2; thr_simpl).
+  assert (Hf2 : tfinal (thr st2 t) = tfinal (thr s1 t)) by (unfold st2; thr_simpl).
+  assert (Hu2 : tcur (thr st2 t) = tcur (thr s1 t)) by (unfold st2; thr_simpl).
+  assert (Hr2 : tret (thr st2 t) = tret (thr s1 t)) by (unfold st2; thr_simpl).
+  assert (Bg : forall w0, memZ w0 (dbegun (DBad t w) m) = true -> memZ w0 (m12_begun m) = true).
+  { intros w0 H. cbn [dbegun] in H. rewrite Eb in *. cbn [tl] in H. apply memZ_cons12. exact H. }
+  assert (Wr : 0 <= w < 1000000 /\ wused s1 w = true).
+  { split; [|apply (sl_used _ S w wi Ew)]. destruct (Z_lt_ge_dec w 0) as [A|A]; [destruct (sl_f2 _ S w (or_intror A)); congruence|].
+    destruct (Z_lt_ge_dec w 1000000) as [B|B]; [lia|]. assert (B' : 1000000 <= w) by (apply Z.ge_le; exact B). destruct (sl_f2 _ S w (or_introl B')); congruence. }
+  assert (Pl : pipeline st2 = pipeline s1).
+  { unfold pipeline. change (dl st2) with (dl s1). destruct (Nat.eq_dec main t) as [E|E]; [rewrite E, Hc2, Hc; reflexivity|rewrite Ho; auto]. }
+  assert (Pg : forall w0, prog s1 m w0 -> prog st2 m w0).
+  { intros w0 [A|[[x [A B]]|A]]; [left; exact A|right; left; exists x; rewrite Pl; auto|].
+    destruct (Nat.eq_dec main t) as [E|E]; [rewrite E, Hc in A; destruct A|right; right; rewrite Ho; auto]. }
+  constructor; cbn [dbegun].
+  - apply (d_bad _ _ _ R).
+  - apply (d_uniq _ _ _ R).
+  - apply (d_used _ _ _ R).
+  - apply (d_nfill _ _ _ R).
+  - intros u i0 r0 j Hk Hj. destruct (Nat.eq_dec u t) as [->|Hn].
+    + rewrite Hc2 in Hk. inversion Hk; subst. destruct Hj.
+    + rewrite Ho in Hk by auto. apply (d_ypos _ _ _ R u i0 r0 j Hk Hj).
+  - intros u j Hn Hj. destruct (Nat.eq_dec u t) as [->|Hn0].
+    + rewrite Hc2 in Hj. destruct Hj as [<-|[]]. intros [h [d X]]. discriminate X.
+    + rewrite Ho in Hj by auto. apply (d_ymain _ _ _ R u j Hn Hj).
+  - intros w0 d H. destruct (Nat.eq_dec main t) as [E|E].
+    + rewrite E, Hc2 in H. destruct H as [H|[]]. discriminate H.
+    + rewrite Ho in H by auto. destruct (d_y _ _ _ R w0 d H) as [D1 D2]. split; [exact D1|]. intro Hd. destruct (D2 Hd) as [E1 E2]. split; [apply Bg; exact E1|exact E2].
+  - apply (d_dead _ _ _ R).
+  - intros u x w0 H. destruct (Nat.eq_dec u t) as [->|Hn].
+    + unfold tpushes in H. rewrite Hc2, Hf2 in H. cbn in H. destruct H as [H|H].
+      * inversion H; subst. split; [rewrite Eb; cbn; rewrite Z.eqb_refl; reflexivity|exact Wr].
+      * destruct (d_push _ _ _ R t x w0) as [D1 D2]; [unfold tpushes; rewrite Hc; exact H|]. split; [apply Bg; exact D1|exact D2].
+    + rewrite Ho in H by auto. destruct (d_push _ _ _ R u x w0 H) as [D1 D2]. split; [apply Bg; exact D1|exact D2].
+  - intros x w0 Hin G. rewrite Pl in Hin. destruct (d_pipe _ _ _ R x w0 Hin G) as [D1 D2]. split; [apply Bg; exact D1|exact D2].
+  - intros w0 H. apply Pg. apply (d_done _ _ _ R w0 H).
+  - intros u w0 Hcu. destruct (Nat.eq_dec u t) as [->|Hn].
+    + rewrite Hu2, Hu in Hcu. inversion Hcu; subst w0. right. split; [discriminate|]. split; [rewrite Eb; cbn; rewrite Z.eqb_refl; reflexivity|].
+      split; [rewrite Hr2; exact Hret|]. rewrite Hc2. split.
+      * intros j [<-|[]]. exact Logic.I.
+      * left. exists (wbit wi). left. reflexivity.
+    + rewrite Ho in * by auto. destruct (d_cmd _ _ _ R u w0 Hcu) as [[D _]|[D1 [D2 [D3 [D4 D5]]]]]; [inversion D; congruence|right].
+      split; [discriminate|]. split; [apply Bg; exact D2|]. split; [exact D3|]. split; [exact D4|].
+      destruct D5 as [D5|D5]; [left; exact D5|right; apply Pg; exact D5].
+  - intros u w0 E. discriminate E.
+Qed.
+
+Lemma wh_add_nfill : forall st h st1 wi, wh_add st h = Some (st1, wi) -> nfill st1 = nfill st.
+Proof.
+  intros st h st1 wi H. unfold wh_add in H. destruct (slab_insert (sl st) h) as [bit0 s0].
+  destruct (add_loop 2 s0 h bit0) as [[[bit base] s1]|]; [|discriminate].
+  destruct (waker_vec_index bit); [|discriminate]. destruct (waker_slot bit); [|discriminate]. inversion H; subst. reflexivity.
+Qed.
+
+Ltac dfr s1 t R Hc Hcur :=
+  apply (d_frame_s s1 _ _ t R);
+  [ reflexivity | reflexivity | reflexivity | reflexivity | exact Hc
+  | intros ? ?; thr_simpl
+  | intros ?; cbn -[Nat.eqb]; unfold updN, th; rewrite ?Nat.eqb_refl; cbn -[Nat.eqb]; unfold updN, th; rewrite ?Nat.eqb_refl; cbn -[Nat.eqb]; rewrite ?Hcur; discriminate
+  | thr_simpl
+  | intros ?; cbn -[Nat.eqb]; unfold updN, th; rewrite ?Nat.eqb_refl; cbn -[Nat.eqb];
+    let Hj := fresh in intro Hj; repeat (destruct Hj as [<-|Hj]); try contradiction;
+    (split; [intros [? [? ?]]; discriminate|split; reflexivity]) ].
+
+Lemma begin_cmd_D : forall st m t c st' ev done,
+  CInv (core st) -> pristine st -> wfi st -> SlInv st -> DRel (pinst t c) st m -> (t < nthr st)%nat ->
+  tcont (thr st t) = [] -> tcur (thr st t) = Some c -> tret (thr st t) = RUnit ->
+  begin_cmd st t c = (st', ev, done) ->
+  DRel (pbegin t c done) st' (fold_left m12_step (evs t ev) m).
+Proof.
+  intros st m t c st' ev done I P Wf S R Ht Hc Hcur Hret H.
+  assert (Same : forall p0 s e0, (forall e, In e e0 -> c12_plain e) -> DRel p0 s m -> DRel p0 s (fold_left m12_step (evs t e0) m)).
+  { intros p0 s e0 He R0. eapply d_msame; [exact R0|apply m12_plain_fold; exact He]. }
+  assert (Pe : forall b h e, In e [EAdd b h] -> c12_plain e) by (intros b h e [<-|[]]; exact Logic.I).
+  assert (Pr : forall e, In e [EErr] -> c12_plain e) by (intros e [<-|[]]; exact Logic.I).
+  assert (Pn : forall e : wevent, In e [] -> c12_plain e) by (intros e []).
+  assert (Add : forall h st1 wi, h <> HReserved -> (forall w, h <> HPlain w) -> wh_add st h = Some (st1, wi) -> DRel DNone st m ->
+                DRel DNone st1 m /\ pristine st1 /\ thr st1 = thr st).
+  { intros h st1 wi Hh Hp E R0.
+    destruct (wh_add_post st h st1 wi I Hh E) as [Hfresh [Hget [Hold [Ed [Et [En [Ew [Eu [Ec Ep]]]]]]]]].
+    split; [|split; [|exact Et]].
+    - apply (d_ext DNone st st1 m False 0 0 S R0 Et Ed Hold); try tauto.
+      + intros x w G. destruct (wh_add_new st h st1 wi I Hh E x _ G) as [G0|[[_ G0]|G0]]; [left; exact G0| |discriminate G0].
+        exfalso. eapply Hp. symmetry. exact G0.
+      + intros w. rewrite Eu. auto.
+      + rewrite (wh_add_nfill _ _ _ _ E). apply Z.le_refl.
+    - destruct P as [P0 P]. split; [lia|]. intros u Hu. rewrite Et. apply P. lia. }
+  destruct c as [w|w|c0 x|c0|w|n| | | | | |c0|c0|p0|p0 x|p0| |x| | ]; cbn [begin_cmd pinst pbegin] in *.
+  - (* CWake *)
+    destruct (wreg st w) as [wi|]; [|inversion H; subst; apply Same; auto].
+    destruct (climb_start st wi (Some (HPlain w))) as [i|] eqn:E; inversion H; subst; clear H; [|apply Same; auto].
+    apply climb_at_climb in E. destruct E as [k ->]. apply Same; auto. dfr st t R Hc Hcur.
+  - (* CDropW *)
+    destruct (wreg st w) as [wi|] eqn:Ew; [|inversion H; subst; apply Same; auto].
+    destruct (wbusy st w); inversion H; subst; clear H; apply Same; auto.
+    + apply (d_dropw_begin st m t w wi S R Ew Hret).
+    + apply (d_steq _ st); auto.
+  - destruct (Waker.creg (chs st c0)); inversion H; subst; clear H; apply Same; auto. dfr st t R Hc Hcur.
+  - destruct (Waker.creg (chs st c0)); inversion H; subst; clear H; apply Same; auto. dfr st t R Hc Hcur.
+  - (* CNew *)
+    destruct (negb (is_main t) || wused st w || (1000000 <=? w) || (w <? 0)) eqn:Eg; [inversion H; subst; apply Same; auto|].
+    apply orb_false_iff in Eg. destruct Eg as [Eg Eneg]. apply orb_false_iff in Eg. destruct Eg as [Eg Ebig].
+    apply orb_false_iff in Eg. destruct Eg as [_ Eused]. apply Z.leb_gt in Ebig. apply Z.ltb_ge in Eneg.
+    destruct (wh_add st (HPlain w)) as [[st1 wi]|] eqn:E; inversion H; subst; clear H; [|apply Same; auto].
+    assert (Hh : HPlain w <> HReserved) by discriminate.
+    destruct (wh_add_post st _ st1 wi I Hh E) as [Hfresh [Hget [Hold [Ed [Et [En [Ew [Eu [Ec Ep]]]]]]]]].
+    pose proof (wh_add_new st _ st1 wi I Hh E) as Hnew.
+    pose proof (wh_add_nfill _ _ _ _ E) as Enf.
+    apply Same; [apply Pe|].
+    apply (d_ext DNone st _ m True (wbit wi) w S R); auto.
+    + intros x w0 G. destruct (Hnew x _ G) as [G0|[[G1 G0]|G0]]; [left; exact G0| |discriminate G0].
+      apply hplain_inj in G0. right. auto.
+    + intros _. left. split; [lia|]. split; [exact Eused|]. cbn. unfold updZ. rewrite Z.eqb_refl. reflexivity.
+    + intros w0 Hw0. cbn. unfold updZ. destruct (w0 =? w); [reflexivity|]. rewrite Eu. exact Hw0.
+    + cbn. rewrite Enf. apply Z.le_refl.
+  - (* CFill *)
+    destruct (negb (is_main t)); [inversion H; subst; apply Same; auto|].
+    destruct (fill_loop (Z.to_nat n) st []) as [st1 ev1] eqn:E. inversion H; subst; clear H.
+    destruct (fill_loop_ghostev _ _ _ _ _ E ltac:(intros e0 [])) as [G1 _].
+    apply Same; [intros e He; destruct (G1 e He) as [X Y]; apply ghost_c12_plain; [|exact Y]; destruct e; cbn in *; try contradiction; try discriminate; exact Logic.I|].
+    eapply fill_loop_D; eauto.
+  - destruct (negb (is_main t)); inversion H; subst; clear H; apply Same; auto. dfr st t R Hc Hcur.
+  - destruct (negb (is_main t)); [inversion H; subst; apply Same; auto|].
+    destruct (gnotified st); inversion H; subst; clear H; apply Same; auto. dfr st t R Hc Hcur.
+  - destruct (negb (is_main t)); inversion H; subst; clear H; apply Same; auto.
+    apply d_spawn; auto.
+  - destruct (negb (is_main t)); inversion H; subst; clear H; apply Same; auto. dfr st t R Hc Hcur.
+  - destruct (negb (is_main t)); inversion H; subst; clear H; apply Same; auto. dfr st t R Hc Hcur.
+  - (* CCNew *)
+    destruct (negb (is_main t) || cexists (chs st c0)) eqn:Eg; [inversion H; subst; apply Same; auto|].
+    destruct (wh_add st (HChan c0)) as [[st1 wi]|] eqn:E; inversion H; subst; clear H; [|apply Same; auto].
+    destruct (Add (HChan c0) st1 wi ltac:(discriminate) ltac:(intros; discriminate) E R) as [R1 [_ T1]].
+    apply Same; [apply Pe|].
+    assert (Hc1 : tcont (thr st1 t) = []) by (rewrite T1; exact Hc).
+    assert (Hcur1 : tcur (thr st1 t) = Some (CCNew c0)) by (rewrite T1; exact Hcur).
+    dfr st1 t R1 Hc1 Hcur1.
+  - (* CCDrop *)
+    destruct (negb (is_main t) || negb (cguard (chs st c0))); inversion H; subst; clear H; apply Same; auto. dfr st t R Hc Hcur.
+  - (* CPNew *)
+    destruct (negb (is_main t) || pexists (pps st p0)); [inversion H; subst; apply Same; auto|].
+    destruct (wh_add st (HPipe p0)) as [[st1 wi]|] eqn:E; inversion H; subst; clear H; [|apply Same; auto].
+    destruct (Add (HPipe p0) st1 wi ltac:(discriminate) ltac:(intros; discriminate) E R) as [R1 [P1 T1]].
+    apply Same; [apply Pe|].
+    apply d_spawn.
+    + apply (d_steq _ st1); auto.
+    + destruct P1 as [P0 P1]. split; [exact P0|]. intros u Hu. apply P1. exact Hu.
+    + intros x w [X|[]]. discriminate X.
+  - destruct (negb (is_main t) || negb (phandle (pps st p0))); inversion H; subst; clear H; apply Same; auto. dfr st t R Hc Hcur.
+  - destruct (negb (is_main t) || negb (phandle (pps st p0))); inversion H; subst; clear H; apply Same; auto. dfr st t R Hc Hcur.
+  - destruct (tpipe (th st t) <? 0); inversion H; subst; clear H; apply Same; auto. dfr st t R Hc Hcur.
+  - destruct (tpipe (th st t) <? 0); inversion H; subst; clear H; apply Same; auto. dfr st t R Hc Hcur.
+  - destruct (tpipe (th st t) <? 0); inversion H; subst; clear H; apply Same; auto. dfr st t R Hc Hcur.
+  - (* CPanic *)
+    destruct (tpipe (th st t) <? 0); inversion H; subst; clear H; apply Same; auto.
+    apply (d_frame st _ m t R); try reflexivity; auto.
+    + intros u Hu. split; [thr_simpl|]. intros w. thr_impl.
+    + intros w. cbn -[Nat.eqb]. unfold updN, th. rewrite Nat.eqb_refl. cbn. unfold th in Hcur. rewrite Hcur. discriminate.
+    + cbn -[Nat.eqb]. unfold updN, th. rewrite Nat.eqb_refl. cbn. unfold th in Hc. rewrite Hc. intros j [].
+    + cbn -[Nat.eqb]. unfold updN, th. rewrite Nat.eqb_refl. cbn. unfold th in Hc. rewrite Hc. reflexivity.
+    + intros u x w. unfold tpushes. cbn -[Nat.eqb]. unfold updN, th. destruct (Nat.eqb_spec u t) as [->|]; [|auto]. cbn. auto.
+Qed.
